@@ -1180,3 +1180,6 @@ def replay(ctx, data):
             print("model unavailable:", e)
         return False
     return False
+
+
+DRIVER_OPS = ["pipe"]   # per-area driver executable(s) this check talks to (built before any worker is forked)
